@@ -13,7 +13,7 @@ from explore import expect, conc, Violation
 PROPERTY = 'C03'
 HELPERS = os.path.join(hsupport.VERIF, 'helpers/bin')
 CICADA = os.path.join(hsupport.VERIF, 'build/bin/debug/cicada')
-BUDGET = {'quick': 300, 'thorough': 1500}
+BUDGET = {'quick': 900, 'thorough': 1500}
 BOUNDS = {'quick': dict(max_n=4), 'thorough': dict(max_n=6)}
 ASSUMPTIONS = [
     'bounded: lines of 1..max_n pipelines; every operator sequence over {;, &&, ||} is enumerated, statuses are symbolic (0..255 each)',
